@@ -80,6 +80,7 @@ theorem inv_exec {s : State} (h : Inv s) (now : Nat) (c : Cmd) : Inv (exec s now
   case zcard k => rw [execZCard_ro]; exact h
   case zcount k lo hi => rw [execZCount_ro]; exact h
   case zrangebyscore k lo hi ws lim => rw [execZRangeByScore_ro]; exact h
+  case sort k st => exact inv_execSort h ..
 
 theorem ttlReply_not_err (s : State) (k : Nat) (f : Nat → Nat) : (ttlReply s k f).isError = false := by
   unfold ttlReply
@@ -165,6 +166,7 @@ theorem exec_err {s : State} {now : Nat} {c : Cmd} (he : (exec s now c).2.isErro
   case zcard k => exact execZCard_ro ..
   case zcount k lo hi => exact execZCount_ro ..
   case zrangebyscore k lo hi ws lim => exact execZRangeByScore_ro ..
+  case sort k st => exact execSort_err he
 
 /-- a command classified read-only returns the state it was given -/
 theorem exec_ro {s : State} {now : Nat} {c : Cmd} (hr : isReadOnly c = true) :
